@@ -559,7 +559,9 @@ def _check(c):
             continue
         if o[0] != 'e':
             c.violation('dimensioned-argument-accepted', {'kind': 'impl-vs-spec', 'input': inp, 'impl': o})
-    okt = [(txt, sp[1]) for txt, sp, e in zip(texts, specs, ev) if sp[0] == 'ok' and e[0] == 'o'][: (300 if c.tier == 'quick' else 3000)]
+    # (a value whose own units mix temperature bases is not even equal to itself, reliably: known class)
+    okt = [(txt, sp[1]) for txt, sp, e in zip(texts, specs, ev)
+           if sp[0] == 'ok' and e[0] == 'o' and not reduce_dims(sp[1].dims)[3]][: (300 if c.tier == 'quick' else 3000)]
     other = ['kg', 's', 'K', 'USD', 'bit', 'm^2']
     za = l2(c, ['((%s) + (0 %s)) == (%s)' % (txt, r.choice(other), txt) for txt, s in okt])
     for (txt, s), o in zip(okt, za):
